@@ -312,7 +312,7 @@ type base struct {
 func main() { harness.Main("C02", "model_checking", run) }
 
 func run(r *harness.Run) {
-	r.Rule("explicit-state search: start objects = every subset of <=2 members (and the triples of the five entries that differ in key shape; thorough: every subset of <=4) from a 10-key menu (keys needing escapes, dotted keys, non-ASCII, and nested members that are themselves named signatures / unsigned) with typed values (big integers, nested objects/arrays, strings with <&>), optionally carrying a foreign signature and/or unsigned, plus wide objects (129 / 257 / 300 members, thorough 64 ... 1025; flat and nested; depth 2 over sign x2 / re-serialise x2); operation alphabet (11): sign by 3 identities (two key IDs of one entity, one other entity), re-serialise in 3 non-canonical presentations, set/replace/delete unsigned, add a foreign signature, change a signed member (all signatures made so far go stale and must be replaced when their owner signs again); all sequences up to depth D. After every transition: VerifyJSON for every identity == reference (signed set), signature bytes == ed25519 over refjson canonical form, wrong name/key ID/public key refused, ListKeyIDs == reference. On every distinct reached state: every single-member mutation (value change incl. +1 on integers, insert, delete, rename, nested edit, array edits) must fail verification; mutations confined to unsigned / foreign signatures must not. Non-trivial = distinct state text with >=1 signature.")
+	r.Rule("explicit-state search: start objects = every subset of <=2 members (and the triples of the five entries that differ in key shape; thorough: every subset of <=4) from a 10-key menu (keys needing escapes, dotted keys, non-ASCII, and nested members that are themselves named signatures / unsigned) with typed values (big integers, nested objects/arrays, strings with <&>), optionally carrying a foreign signature and/or unsigned, plus wide objects (129 / 257 / 300 members, thorough 64 ... 513; flat and nested; depth 2 over sign x2 / re-serialise x2); operation alphabet (11): sign by 3 identities (two key IDs of one entity, one other entity), re-serialise in 3 non-canonical presentations, set/replace/delete unsigned, add a foreign signature, change a signed member (all signatures made so far go stale and must be replaced when their owner signs again); all sequences up to depth D. After every transition: VerifyJSON for every identity == reference (signed set), signature bytes == ed25519 over refjson canonical form, wrong name/key ID/public key refused, ListKeyIDs == reference. On every distinct reached state: every single-member mutation (value change incl. +1 on integers, insert, delete, rename, nested edit, array edits) must fail verification; mutations confined to unsigned / foreign signatures must not. Non-trivial = distinct state text with >=1 signature.")
 	r.Assume("ed25519 is deterministic and trusted", "objects with duplicate keys are outside the property")
 	type replayIn struct {
 		Start string
@@ -531,7 +531,7 @@ func run(r *harness.Run) {
 	// types change, members in reversed order, flat and nested. They run through the same search with a reduced alphabet
 	// (sign by two entities, two re-serialisations) and depth 2, the mutation oracle on every member as for any other state.
 	nNarrow := len(allStarts)
-	for _, n := range r.PickInts([]int{129, 257, 300}, []int{64, 129, 255, 256, 257, 300, 513, 1025}) {
+	for _, n := range r.PickInts([]int{129, 257, 300}, []int{64, 129, 256, 257, 300, 513}) {
 		var parts []string
 		for j := n - 1; j >= 0; j-- {
 			parts = append(parts, fmt.Sprintf(`"@u%d:a.org":%d`, j, j))
